@@ -58,9 +58,12 @@ func main() {
 		lines = p.Gen(hx.NewR(*seed), *tier, out)
 	}
 	for _, l := range lines {
+		// the case being run, for the orchestration to name it when the process dies in it
+		os.WriteFile(*obs+".cur", []byte(l), 0o644)
 		o, nt := p.Run(l, out)
 		out.Emit(l, o, nt)
 	}
+	os.Remove(*obs + ".cur")
 	if p.Finish != nil {
 		p.Finish(out)
 	}
